@@ -303,6 +303,20 @@ def _numpy_worker(item):
                     a = np.asarray(r.get_tracefield_values(k))
                     if a.shape != (ni, nx) or not np.array_equal(a.astype(np.int64), expect[k]):
                         bad_tf.append(k)
+            # the bulk path on a reader of its own (whole arrays loaded first, then indexed by trace): the same headers
+            with SgzReader(p) as r2:
+                for i in sorted({0, 1, nx, ni * nx // 2, ni * nx - 1}):
+                    try:
+                        h = r2.gen_trace_header(i, load_all_headers=True)
+                    except BaseException as e2:
+                        if isinstance(e2, (KeyboardInterrupt, SystemExit, MemoryError)):
+                            raise
+                        bad.append(f'load_all[{i}]: {type(e2).__name__}')
+                        continue
+                    for k in keys:
+                        w = int(expect[k].reshape(-1)[i]) if k in expect else 0
+                        if int(h[segyio.TraceField(k)]) != w and f'load_all:{k}' not in bad:
+                            bad.append(f'load_all:{k}')
         return {'bad': bad, 'bad_tf': bad_tf, 'stored': stored, 'want_stored': sorted(expect)}
     except BaseException as e:
         if isinstance(e, (KeyboardInterrupt, SystemExit, MemoryError)):
@@ -370,6 +384,10 @@ def plan(run):
         for mat in ([[0, 1, 2], [0, 1, 2], [1, 1, 1]], [[1, 0, 2], [2, 2, 2], [1, 0, 2]], [[2, 1, 0], [2, 1, 0], [2, 1, 0]]):
             cases.append({'geom': g, 'embed': (j + len(mat[0])) % len(EMBED), 'vmap': j % 3, 'bg': ('zero', 'const')[j % 2], 'mat': mat, 'onemid': False,
                           'modes': [m for m in MODES if not (GEOMS[g][0] == 'irr' and m == 'strip')], 'cls': ['d', 'd', 'c']})
+    # traces of more than 32767 samples (the sample-count word is an UNSIGNED 16-bit field): a 2-D line and a small cube
+    for j, g in enumerate(('2dil-6', '2d0-5', 'reg2x3')):
+        cases.append({'geom': g, 'embed': j % len(EMBED), 'vmap': j % 3, 'bg': ('const', 'mix', 'ramp')[j], 'mat': [[0, 1, 2], [1, 1, 1], [2, 0, 1]], 'onemid': False,
+                      'modes': list(MODES), 'cls': ['v', 'c', 'v'], 'nz': 33000})
     ncases = []
     shapes = [(2, 2), (8, 16), (3, 43), (2, 3), (5, 26)]
     keys = KEYS()
@@ -390,6 +408,8 @@ def judge_segy(run, ci, case, res, ev):
     base = {k: case[k] for k in ('geom', 'embed', 'vmap', 'bg', 'mat', 'onemid')}
     if case.get('setting'):
         base['setting'] = [case['setting'][0], list(case['setting'][1]) if case['setting'][1] else None]
+    if case.get('nz'):
+        base['nz'] = case['nz']
     if 'error' in res:
         run.machinery(f'C04 case {base}: {res["error"]}')
         return
@@ -485,7 +505,7 @@ def replay(run, rep):
         run.check(not r['bad_tf'], 'C04.tracefield-array[numpy]', c, r['bad_tf'][:8], None)
         return
     cases, _ = plan(run)
-    ci = [i for i, x in enumerate(cases) if all(x[k] == c[k] for k in ('geom', 'embed', 'vmap', 'bg', 'mat', 'onemid'))
+    ci = [i for i, x in enumerate(cases) if all(x[k] == c[k] for k in ('geom', 'embed', 'vmap', 'bg', 'mat', 'onemid')) and x.get('nz') == c.get('nz')
           and [x.get('setting', (16, None))[0], list(x.get('setting', (16, None))[1]) if x.get('setting', (16, None))[1] else None] == c.get('setting', [16, None])]
     case = dict(cases[ci[0]]) if ci else dict(c, cls=['v'], modes=[c['mode']])
     case['modes'] = [c['mode']]
